@@ -367,8 +367,11 @@ def write_back(tree, related_classes, sites, only=None, keep=(), methods=()):
                         a_ = st.args
                         loads_ = [n for n in ast.walk(fn) if isinstance(n, ast.Name) and n.id == st.name and isinstance(n.ctx, ast.Load)]
                         called_ = [n for n in ast.walk(fn) if isinstance(n, ast.Call) and isinstance(n.func, ast.Name) and n.func.id == st.name]
-                        if len(b_) == 1 and isinstance(b_[0], ast.Return) and b_[0].value is not None and len(loads_) == 1 \
-                                and not called_ and not (a_.vararg or a_.kwarg or a_.defaults or a_.kw_defaults or a_.kwonlyargs) \
+                        simple_sig = not (a_.vararg or a_.kwarg or a_.defaults or a_.kw_defaults or a_.kwonlyargs)
+                        # (a def the confirmed unit spells as a lambda of the same name keeps its full signature)
+                        as_ref_lambda = ("name " + st.name) in keep
+                        if len(b_) == 1 and isinstance(b_[0], ast.Return) and b_[0].value is not None \
+                                and ((len(loads_) == 1 and not called_ and simple_sig) or as_ref_lambda) \
                                 and not any(isinstance(n, (ast.Yield, ast.YieldFrom, ast.Await)) for n in ast.walk(st)):
                             lam = ast.Lambda(args=a_, body=b_[0].value)
                             blk[i] = ast.copy_location(ast.Assign(targets=[ast.Name(id=st.name, ctx=ast.Store())], value=lam), st)
